@@ -17,6 +17,8 @@ LINE_POOL = [
     "# café € \U0001d518".encode("utf-8"), b'NO (QUOTA) "q"', b" ", b"\t",
     b'if header :is "Subject" "OK" { discard; }', b"{12}", b"OK (WARNINGS) \"w\"",
     b"text:", b".", b'"', b"\\", b"{", b"}", b'"unterminated',
+    # characters str.splitlines() treats as line boundaries but which are content inside a line
+    "a\u2028b".encode("utf-8"), "p\u2029q".encode("utf-8"), "n\u0085m".encode("utf-8"), b"v\x0bt", b"f\x0cf", b"g\x1cs\x1dr\x1eu",
 ]
 
 EOLS = [b"\r\n", b"\n"]
